@@ -46,7 +46,7 @@ func stdSets() map[string][]string {
 // ---------------------------------------------------------------- C03 (+C12 response side, C04 light)
 func modeC03(thorough bool) {
 	in, err := newInst("c03", instOpts{
-		listeners: append(append([]string{}, allListeners...), "udpmr"),
+		listeners: append(append([]string{}, allListeners...), "udpmr", "udpth"),
 		upstreams: map[string]string{"u1": "udp", "u2": "tcp", "u3": "tcp+pipeline"},
 		sets:      map[string][]string{"s1": {"domain:z1.test"}, "s2": {"domain:z2.test"}, "s3": {"domain:z3.test"}, "s4": {"domain:z4.test"}, "s5": {"domain:z5.test"}},
 		rules:     []ruleSpec{{Set: "s1", Forward: "u1"}, {Set: "s2", Forward: "u2"}, {Set: "s3", Reject: 3}, {Set: "s4"}, {Set: "s5", Forward: "u3"}},
@@ -167,6 +167,13 @@ func modeC03(thorough bool) {
 	// wildcard UDP listener with multi_routes: the response comes from the address the query was sent to
 	par(6, func(i int) {
 		in.send("udpmr", []string{"127.0.0.1", "127.0.0.2", "127.0.0.3"}[i%3], mkq(fmt.Sprintf("%s.r0t60d0.z1.test.", uniq())), 3*time.Second, nil)
+	})
+	// UDP listener with three reader threads (three SO_REUSEPORT sockets on one address): clients on many source
+	// ports reach all of them; each is answered on the socket it wrote to
+	par(24, func(i int) {
+		for k := 0; k < 3; k++ {
+			in.send("udpth", "", mkq(fmt.Sprintf("%s.r0t60d0.z1.test.", uniq())), 3*time.Second, nil)
+		}
 	})
 	// a query whose response cannot be delivered (source port 0: sendmsg fails): the listener keeps answering
 	if in.sendFromPort0(mkq(fmt.Sprintf("%s.r0t60d0.z1.test.", uniq())).wire()) {
